@@ -107,7 +107,10 @@ def shape_indirect_register(reg, code, pos='suffix', offset=None, align=True, en
         insts = [(f'[{reg}]', code, None)]
     else:
         insts = [(f'[{reg}]', code, (0, offset)), (f'[{reg}+1]', code, (1, offset)), (f'[ {reg} + 2 ]', code, (2, offset)),
-                 (f'[{reg}-1]', code, (-1, offset)), (f'[{reg}+{(1 << (offset - 1)) - 1}]', code, ((1 << (offset - 1)) - 1, offset))]
+                 (f'[{reg}-1]', code, (-1, offset)), (f'[{reg}+{(1 << (offset - 1)) - 1}]', code, ((1 << (offset - 1)) - 1, offset)),
+                 # an offset is an expression: [r - 4 - 1] is r-5, [r - 2 + 1] is r-1, [r + 2*3 - 1] is r+5
+                 (f'[{reg} - 4 - 1]', code, (-5, offset)), (f'[{reg}-2+1]', code, (-1, offset)), (f'[{reg} + 2*3 - 1]', code, (5, offset)),
+                 (f'[{reg} - (1+2)]', code, (-3, offset))]
     if decorator is not None:
         d = DECORATORS[decorator[0]]
         insts = [((d + t if decorator[1] else t + d), c, a) for t, c, a in insts]
